@@ -991,6 +991,225 @@ impl Scenario for WindowExpiresMidHandshake {
     }
 }
 
+/// C20: table pressure. One fabric's controller keeps forgetting its sessions, so that every one of
+/// its requests needs a new CASE handshake and the device's session table (16) fills up with idle
+/// sessions: each further handshake must succeed by evicting an idle session. Then the other
+/// fabric's administrator removes its own fabric - the session it uses is marked expired and
+/// still carries the exchange of the answer - within a few milliseconds of yet another handshake
+/// that needs a slot: the answer must arrive (a session with a live exchange is never evicted).
+pub struct SessionTablePressure {
+    pub faults: bool,
+}
+
+impl Scenario for SessionTablePressure {
+    fn property(&self) -> &'static str {
+        "C20"
+    }
+    fn name(&self) -> &'static str {
+        if self.faults {
+            "session-table-pressure-delays"
+        } else {
+            "session-table-pressure"
+        }
+    }
+
+    fn run(&self, seed: u64) -> Outcome {
+        let latency = 500 + tape::choose(4) as u64 * 500;
+        let rounds = 15 + tape::choose(6) as usize;
+        let gap = 100 + tape::choose(4) * 100;
+        // B's handshake starts between 3 ms before and 6 ms after A's RemoveFabric
+        let t_remove = 4_000 + 4_000 + (rounds as u32 + 2) * (gap + 40) + 2_000;
+        let delta = tape::choose(36) as i64 - 12;
+        let t_b = (t_remove as i64 + delta / 4) as u32;
+        // A keeps using its session, so that it is never the least recently used one
+        let mut a_script = vec![CtlStep::Commission { dev: 0 }, CtlStep::OpenWindow { dev: 0, secs: 900 }, CtlStep::ReadOnOff { dev: 0 }];
+        let mut t = 1_000u32;
+        while t + 200 < t_remove {
+            a_script.push(CtlStep::SleepUntil { ms: t });
+            a_script.push(CtlStep::ReadOnOff { dev: 0 });
+            t += 150;
+        }
+        a_script.push(CtlStep::SleepUntil { ms: t_remove });
+        a_script.push(CtlStep::RemoveFabric { dev: 0, fabric_index: 1 });
+        let mut b_script = vec![CtlStep::Sleep { ms: 4_000 }, CtlStep::Commission { dev: 0 }, CtlStep::ReadOnOff { dev: 0 }];
+        for _ in 0..rounds {
+            b_script.push(CtlStep::Sleep { ms: gap });
+            b_script.push(CtlStep::DropSessions);
+            b_script.push(CtlStep::ReadOnOff { dev: 0 });
+        }
+        b_script.push(CtlStep::SleepUntil { ms: t_b });
+        b_script.push(CtlStep::DropSessions);
+        b_script.push(CtlStep::ReadOnOff { dev: 0 });
+        for _ in 0..2 {
+            b_script.push(CtlStep::Sleep { ms: 2_000 });
+            b_script.push(CtlStep::DropSessions);
+            b_script.push(CtlStep::ReadOnOff { dev: 0 });
+        }
+        let net = UniformNet {
+            latency_us: latency,
+            jitter_us: if self.faults { [0, 300, 1000][tape::choose(3) as usize] } else { 0 },
+            hold_permille: if self.faults { [0, 100][tape::choose(2) as usize] } else { 0 },
+            hold_max_ms: 4,
+            ..Default::default()
+        };
+        let cfg = FullCfg {
+            n_devices: 1,
+            controllers: vec![
+                CtlSpec { fabric_id: 1, node_id: 0x1000, script: a_script, continue_on_error: true },
+                CtlSpec { fabric_id: 2, node_id: 0x2000, script: b_script, continue_on_error: true },
+            ],
+            handlers: 4,
+            net,
+            sched: SchedCfg {
+                nonfifo_permille: if self.faults { [0, 100, 300][tape::choose(3) as usize] } else { 0 },
+                max_polls: 4_000_000,
+                max_time: 1_000 * SEC,
+                ..Default::default()
+            },
+            limit_us: 600 * SEC,
+            kv_faults: vec![],
+            crashes: vec![],
+            restart_after_us: 300 * MS,
+            cancels: vec![],
+            calm_at_us: None,
+        };
+        let mut max_sessions = 0usize;
+        let mut reached_full_at: Option<u64> = None;
+        // Sessions with an exchange that waits for an acknowledgement, at the previous probe:
+        // (session id, peer node); and those of them which were gone at the next probe:
+        // (after, until, session id, peer node)
+        let mut waiting: Vec<(u32, Option<usize>)> = Vec::new();
+        let mut vanished: Vec<(u64, u64, u32, Option<usize>)> = Vec::new();
+        let mut prev_t = 0u64;
+        set_fine_probe(Some(((t_remove as u64 - 3) * MS, (t_remove as u64 + 12) * MS + 10 * latency, 200)));
+        let run = drive_full_with(seed, cfg, &mut |t, states| {
+            if let Some(Some(st)) = states.first() {
+                let n = st.snap.sessions.len();
+                max_sessions = max_sessions.max(n);
+                if n >= 16 && reached_full_at.is_none() {
+                    reached_full_at = Some(t);
+                }
+                for (id, peer) in &waiting {
+                    if !st.snap.sessions.iter().any(|s| s.id == *id) {
+                        vanished.push((prev_t, t, *id, *peer));
+                    }
+                }
+                waiting = st
+                    .snap
+                    .sessions
+                    .iter()
+                    .filter(|s| !s.reserved && s.exchanges.iter().any(|e| e.retrans.is_some()))
+                    .map(|s| (s.id, crate::net::addr_node(&s.peer_addr)))
+                    .collect();
+                prev_t = t;
+            }
+        });
+        let mut out = Outcome::default();
+        common_counters(&run, &mut out);
+        out.count("max_sessions_seen", max_sessions as u64);
+        let a = results(&run, 1);
+        let b = results(&run, 2);
+        let describe = || {
+            format!(
+                "latency {latency} us, {rounds} rounds, table full at {:?} us, most sessions seen {max_sessions}; A {:?}; B {:?}",
+                reached_full_at,
+                a.iter().filter(|(n, _, _)| *n != "sleep").map(|(n, c, t)| format!("{n}:{c:x}@{}", t / 1000)).collect::<Vec<_>>(),
+                b.iter().filter(|(n, _, _)| *n != "sleep").map(|(n, c, t)| format!("{n}:{c:x}@{}", t / 1000)).collect::<Vec<_>>()
+            )
+        };
+        let commissioned = a.iter().any(|(n, c, _)| *n == "commission" && *c == 0xffff) && b.iter().any(|(n, c, _)| *n == "commission" && *c == 0xffff);
+        if run.all_done && commissioned {
+            if let Some(t_full) = reached_full_at {
+                out.count("c20_runs_with_full_table", 1);
+                // With a full table of idle sessions the device answers a handshake Busy and evicts an
+                // idle session, or evicts at once: of two handshakes in a row at least one gets through
+                let b_reads: Vec<&(&'static str, u16, u64)> = b.iter().filter(|(n, _, _)| *n == "read_onoff").collect();
+                let t_rm_ms = t_remove as u64 * MS;
+                let mut prev_failed = false;
+                for (_, c, t) in b_reads.iter().map(|x| **x) {
+                    if t > t_full && t < t_rm_ms - 600 * MS {
+                        out.count("c20_handshakes_with_full_table", 1);
+                        if c != 0xffff {
+                            out.count("c20_handshakes_answered_busy_first", 1);
+                            if prev_failed && !self.faults {
+                                out.violate("C20-handshake-refused-although-sessions-idle", describe());
+                            }
+                            prev_failed = true;
+                        } else {
+                            prev_failed = false;
+                        }
+                    }
+                }
+                // A's RemoveFabric over its own session: the answer arrives although the
+                // session is expired by then and another handshake needs a slot
+                if let Some((_, c, _)) = a.iter().find(|(n, _, _)| *n == "remove_fabric") {
+                    out.count("c20_self_removals_next_to_a_handshake", 1);
+                    if *c != 0xffff && !self.faults {
+                        out.violate("C20-session-with-live-exchange-evicted", describe());
+                    }
+                }
+                // B is served at the end (its last two requests each need a new handshake)
+                if !self.faults && !b_reads.iter().rev().take(2).any(|(_, c, _)| *c == 0xffff) {
+                    out.violate("C20-handshake-refused-although-sessions-idle", describe());
+                }
+            } else {
+                out.count("runs_table_never_full", 1);
+            }
+            // A session whose exchange was waiting for an acknowledgement is gone although
+            // nothing from its peer arrived in between (an acknowledgement, a CloseSession): it was
+            // evicted with a live exchange. (Giving up on the retransmissions takes seconds and is
+            // not in reach of the finely probed interval.)
+            {
+                use crate::net::TapEvent;
+                let src_of: BTreeMap<u64, usize> = run
+                    .tap
+                    .iter()
+                    .filter_map(|e| match e {
+                        TapEvent::Send(s) => Some((s.id, s.src)),
+                        _ => None,
+                    })
+                    .collect();
+                for (after, until, id, peer) in &vanished {
+                    if until - after > 1_000 {
+                        // (coarse probing outside of the window: not conclusive)
+                        continue;
+                    }
+                    out.count("c20_sessions_ended_while_awaiting_an_acknowledgement", 1);
+                    let heard = run.tap.iter().any(|e| match e {
+                        TapEvent::Consume { id: did, time, node: 0, .. } => *time > after.saturating_sub(1) && *time <= *until && src_of.get(did).copied() == *peer,
+                        _ => false,
+                    });
+                    if !heard {
+                        out.violate(
+                            "C20-session-with-live-exchange-evicted",
+                            format!("device session {id} (peer node {peer:?}) had an exchange waiting for an acknowledgement at t={after} us and was gone at t={until} us although nothing from that peer arrived in between; {}", describe()),
+                        );
+                    }
+                }
+            }
+            if max_sessions > 16 {
+                out.violate("C20-session-table-overrun", describe());
+            }
+            // Nothing reserved, no exchange left at the end
+            for (n, s) in run.snaps.iter().enumerate() {
+                if let Some(s) = s {
+                    let l = leftovers(s, if n == 0 { "device" } else { "controller" });
+                    if !l.is_empty() && !self.faults {
+                        out.violate("C20-resources-not-released", format!("{l:?}; {}", describe()));
+                    }
+                }
+            }
+        } else {
+            out.count("runs_incomplete", 1);
+        }
+        out.nontrivial = commissioned && reached_full_at.is_some();
+        out.state_sigs.push(((delta + 20) as u64) << 8 | rounds as u64);
+        out.sample = Some(json!({"latency_us": latency, "rounds": rounds, "remove_at_ms": t_remove, "b_handshake_at_ms": t_b, "max_sessions": max_sessions,
+            "A": a.iter().filter(|(n, _, _)| *n != "sleep").map(|(n, c, t)| format!("{n}:{c:x}@{}", t / 1000)).collect::<Vec<_>>()}));
+        out
+    }
+}
+
 pub fn defs() -> Vec<PropertyDef> {
     let storm = |which: Which, id: &'static str, rule: &'static str| PropertyDef {
         id,
@@ -1027,13 +1246,16 @@ pub fn defs() -> Vec<PropertyDef> {
     c02.families.push(Family { scenario: Box::new(WindowClosesMidHandshake { faults: true }), weight: 2, fault_free: false });
     c02.families.push(Family { scenario: Box::new(WindowExpiresMidHandshake { faults: false }), weight: 2, fault_free: false });
     c02.families.push(Family { scenario: Box::new(WindowExpiresMidHandshake { faults: true }), weight: 2, fault_free: false });
-    vec![
-        c02,
-        storm(
+    let mut c20 = storm(
             Which::C20,
             "C20",
             "same runs as C02; oracle after all traffic stopped and 400 s of simulated time (PASE establishment timeout, fail-safe, receive time-outs) elapsed: no reserved session, no exchange, no PASE-in-progress marker, RX/TX slots empty, mDNS rendezvous slots idle on the device and on every (cancelled) initiator; then an honest PASE must succeed while the window is open",
-        ),
+        );
+    c20.families.push(Family { scenario: Box::new(SessionTablePressure { faults: false }), weight: 2, fault_free: true });
+    c20.families.push(Family { scenario: Box::new(SessionTablePressure { faults: true }), weight: 1, fault_free: false });
+    vec![
+        c02,
+        c20,
         PropertyDef {
             id: "C01",
             level: "exploration",
